@@ -10,8 +10,7 @@ from .c01 import exact_dp, exact_cost
 
 ANCHORS = {"main_loop.py": ["fit_stacked_data"], "cluster_label_assignment.py": ["predict_cluster_labels"],
            "cluster_maintenance.py": ["repopulate_empty_clusters"], "graphical_lasso.py": ["optimize_markov_random_fields"]}
-R_AX = ["ClassicalDedekindReals.sig_forall_dec", "ClassicalDedekindReals.sig_not_dec",
-        "FunctionalExtensionality.functional_extensionality_dep"]
+R_AX = core.R_AX
 RULE = ("traced runs of both front ends (standard grid + runs with iteration_limit 1/2/3, runs that converge, runs with more clusters than "
         "regimes so that repopulation fires): (a) the verified acceptor accept_c09 evaluated inside Coq on the hook trace of every run; "
         "(b) the model loop replayed inside Coq from the recorded phase outputs must reproduce the number of rounds, the stop reason and "
